@@ -123,13 +123,15 @@ TYPES = {"Integer": Integer, "String": String, "Numeric": Numeric, "Float": Floa
 
 
 def T(d):
+    """type descriptor -> TypeEngine: ["Numeric", 10, 2] | ["Float", {"asdecimal": True, "decimal_return_scale": 0}] |
+    ["mysql.VARCHAR", 5, {"charset": ""}] | ["postgresql.ARRAY", ["Integer"], {"dimensions": 0}] | ["ARRAY", ["Integer"]]"""
     if d is None:
         return None
     if d[0] == "ARRAY":
         return sa.ARRAY(T(d[1]), **(d[2] if len(d) > 2 else {}))
     args = list(d[1:])
     kw = args.pop() if args and isinstance(args[-1], dict) else {}      # trailing dict = keyword arguments
-    return type_class(d[0])(*args, **kw)
+    return type_class(d[0])(*[T(x) if isinstance(x, list) else x for x in args], **kw)      # a list argument is a nested type descriptor
 
 
 def type_class(name):
